@@ -1,6 +1,8 @@
 package main
 
 import (
+	"math/big"
+	"crypto/x509/pkix"
 	"bytes"
 	"crypto"
 	"crypto/sha256"
@@ -126,6 +128,18 @@ func c03Eval(c *Ctx, cs Case) {
 	shapes := certShapes(c)
 	certOf := func(k int) (*x509.Certificate, crypto.Signer) {
 		key := poolKey(c, bits, k)
+		if pad := int(cs.I("cnpad")); pad > 0 {
+			// names of every length residue: the signature length, hence the entry padding, takes every value mod 8
+			// and, by pad mod 3: all different / one serial under different names / one name under different serials
+			name, serial := fmt.Sprintf("signer%d%s", k, strings.Repeat("p", pad-1)), int64(k+1)
+			switch pad % 3 {
+			case 1:
+				serial = 7
+			case 2:
+				name = "signer" + strings.Repeat("p", pad)
+			}
+			return makeRSACert(key, certShape{issuer: pkix.Name{CommonName: name}, serial: big.NewInt(serial), desc: fmt.Sprintf("pad%d/%s/%d", pad, name, serial)}), key
+		}
 		return makeRSACert(key, shapes[k%len(shapes)]), key
 	}
 	cls := "fixture"
@@ -161,6 +175,7 @@ func c03Eval(c *Ctx, cs Case) {
 		}
 		sigs = append(sigs, sig)
 		signedBy[st.key] = true
+		c.Class(fmt.Sprintf("signature-length-mod-8=%d", len(sig)%8))
 		out := p.Bytes()
 		if st.reparse {
 			if pan, msg := safely(func() { p, err = authenticode.Parse(bytes.NewReader(out)) }); pan || err != nil {
@@ -263,7 +278,7 @@ func c03Gen(c *Ctx) {
 	}
 	// third-party signed and unsigned binaries of the repository as starting points
 	for _, f := range []string{"tests/data/binary/HelloWorld.efi", "tests/data/binary/HelloWorld.efi.signed", "authenticode/testdata/test.pecoff", "authenticode/testdata/test.pecoff.signed"} {
-		c03Eval(c, Case{"op": "sign-history", "path": f, "steps": mkSteps(), "bits": int64(2048)})
+		c03Eval(c, Case{"op": "sign-history", "path": f, "steps": mkSteps(), "bits": int64(2048), "cnpad": int64(c.Rng.Intn(9))})
 	}
 	for i := 0; i < c.N(50, 3000) && c.NFailures() < 6; i++ {
 		s := genPeSpec(c, i%20 == 0)
@@ -272,14 +287,15 @@ func c03Gen(c *Ctx) {
 		cs["op"] = "sign-history"
 		cs["steps"] = steps
 		cs["bits"] = int64(bitsets[c.Rng.Intn(len(bitsets))])
+		cs["cnpad"] = int64(i % 9) // 0: the standard shapes; 1..8: common names of 8 consecutive lengths
 		c03Eval(c, cs)
 	}
 }
 
 func init() {
 	register("C03", &PropDef{
-		Rule:   "well-formed images from the C01 generator (all layout classes; unsigned and with an existing 1- or 2-entry certificate table) x signing histories of 1..3 signatures by two RSA keys (2048; thorough also 3072/4096) in any order, the same key possibly twice, with serialise/re-parse after a random subset of steps; after every step the output bytes are checked by an independent walker, its digest by the Lean Spec, and the 3-certificate verification matrix by the library, the Lean Impl model and the Lean Spec. Every case is non-trivial; distinct = distinct (image spec, history).",
-		Assume: []string{"the two signing certificates have different issuer+serial (two different keys under one issuer+serial make the verification loop stop with an error at the first of them; noted, not claimed)", "RSA PKCS#1 v1.5 signatures are deterministic"},
+		Rule:   "well-formed images from the C01 generator (all layout classes; unsigned and with an existing 1- or 2-entry certificate table) x signing histories of 1..3 signatures by two RSA keys (2048; thorough also 3072/4096) in any order, the same key possibly twice, under certificates whose names run through 8 consecutive lengths so that the signature length takes every residue mod 8, the signers' certificates sharing nothing / the serial number only / the issuer name only, with serialise/re-parse after a random subset of steps; after every step the output bytes are checked by an independent walker, its digest by the Lean Spec, and the 3-certificate verification matrix by the library, the Lean Impl model and the Lean Spec. Every case is non-trivial; distinct = distinct (image spec, history).",
+		Assume: []string{"no two signing certificates share both issuer and serial (two different keys under one issuer+serial make the verification loop stop with an error at the first of them; noted, not claimed)", "RSA PKCS#1 v1.5 signatures are deterministic"},
 		Eval:   c03Eval, Gen: c03Gen,
 	})
 }
